@@ -51,6 +51,8 @@ type Shared struct {
 	inconcl    []string
 	samples    []string
 	witnesses  []Witness
+	cuts       map[string]int
+	allocs     map[string]int
 }
 
 type Witness struct {
@@ -65,6 +67,7 @@ func NewShared(prog *ssa.Program) *Shared {
 	sh.stats.m = map[string]int{}
 	sh.opts = Options{MaxIteChain: 256, AllocCap: 1 << 26, MaxPermute: 4}
 	registerModelIntrinsics(sh.intr)
+	registerStdlib(sh.intr)
 	if p := prog.ImportedPackage("errors"); p != nil {
 		sh.errorsNew = p.Func("New")
 	}
@@ -137,6 +140,24 @@ func (sh *Shared) noteAssert(h, label string, symbolic bool) {
 	sh.mu.Lock()
 	k := h + "|" + label
 	sh.asserts[k] = sh.asserts[k] || symbolic
+	sh.mu.Unlock()
+}
+
+func (sh *Shared) noteAlloc(site string) {
+	sh.mu.Lock()
+	if sh.allocs == nil {
+		sh.allocs = map[string]int{}
+	}
+	sh.allocs[site]++
+	sh.mu.Unlock()
+}
+
+func (sh *Shared) noteCut(why string) {
+	sh.mu.Lock()
+	if sh.cuts == nil {
+		sh.cuts = map[string]int{}
+	}
+	sh.cuts[why]++
 	sh.mu.Unlock()
 }
 
